@@ -1262,7 +1262,15 @@ pub fn report_main(check: &dyn Check, tier: Tier, section: u32, index: u64, seed
         println!("REPORT {}", json!({"ok": false, "error": h}));
         return 2;
     }
-    let same = ex.ctx.violation.as_ref().map(|x| x.signature(check.id()) == sig).unwrap_or(false);
+    // A run that fails differently in a fresh process than it did inside its worker (state kept
+    // across calls by the library shifts which call fails first) is still a violating run: it is
+    // reported under the signature it shows here.
+    let sig_owned: String = match &ex.ctx.violation {
+        Some(v) => v.signature(check.id()),
+        None => sig.to_string(),
+    };
+    let sig: &str = &sig_owned;
+    let same = ex.ctx.violation.is_some();
     if !same {
         // The run does not fail on its own in a fresh process: the violation may depend on state
         // the library keeps across calls in one process (a static, a cache). Re-execute the
@@ -1270,7 +1278,9 @@ pub fn report_main(check: &dyn Check, tier: Tier, section: u32, index: u64, seed
         // records the sequence instead of a tape.
         if nw > 0 {
             match run_sequence(check, tier, verif_seed, g % nw, nw, g, false) {
-                Some(v) if v.signature(check.id()) == sig => {
+                Some(v) => {
+                    let sig_owned = v.signature(check.id());
+                    let sig: &str = &sig_owned;
                     let _ = std::fs::create_dir_all(replay_dir);
                     let path = format!("{}/{}-{}-sequence-{:016x}.json", replay_dir, check.id(), tier.name(), mix(&[seed, hash_str(sig)]));
                     let doc = json!({
